@@ -2003,6 +2003,13 @@ func (e *Engine) builtin(st *State, x *ssa.Call, b *ssa.Builtin) AV {
 		}
 		st.events = append(st.events, Event{Kind: "call", Callee: "builtin append", Method: "append", Args: args, Instr: x, Fn: x.Parent(), Depth: len(e.stack) - 1})
 		return AV{Kind: KSym, Sym: "append(" + base.name() + "," + add.name() + "...)", Src: x}
+	case "recover":
+		// a recovered panic makes the enclosing function return its results as
+		// they stand at the point of the panic — from any call or access on the
+		// way. Those ways out are not modelled: the path is outside the fragment
+		// (every rule built on the function's paths then reports undecided)
+		st.unsupported = "recover() outside the fragment (ways out through a recovered panic are not modelled)"
+		return e.typed(st, fmt.Sprintf("recover#%s@%d", x.Name(), st.epoch), x.Type())
 	case "copy":
 		e.havocPointee(st, args[0], "copy")
 		st.events = append(st.events, Event{Kind: "call", Callee: "builtin copy", Method: "copy", Args: args, Instr: x, Fn: x.Parent(), Depth: len(e.stack) - 1})
